@@ -1182,6 +1182,19 @@ def r_rule_ids(m, rep, R):
         rep.check(canon(s.f['rule_id']) == canon(spec), R, s.where(), key,
                   '%s push rule_id = %s (index of the grammar result that created the node)' % (s.kind, canon(spec)),
                   '%s push rule_id is %s, expected %s' % (s.kind, canon(s.f['rule_id']), canon(spec)))
+    # the numbers an item carries keep their full width: a rule id is an index into a result list of any length, positions
+    # run up to the sentence length -- a bit-field or a narrower integer type silently wraps them
+    narrow = []
+    for f_ in [k for k in m.decls['cell_item'].kids if k.kind == 'FieldDecl' and k.name in ('cat', 'start_of_span', 'span_length', 'head_id', 'rule_id')] + \
+            [k for k in m.decls['combinator_result'].kids if k.kind == 'FieldDecl' and k.name in ('cat_id', 'rule_id')]:
+        width = [c for c in f_.kids if c.kind not in ('Null',) and not c.kind.endswith('Attr')]
+        base = (f_.dtype or f_.type or '').replace('const ', '').strip()
+        if width or base not in ('unsigned int', 'unsigned', 'unsigned long', 'unsigned long long', 'size_t', 'std::size_t', 'uint32_t', 'uint64_t', 'std::uint32_t', 'std::uint64_t'):
+            narrow.append('%s: %s%s' % (f_.name, f_.type, ' (bit-field)' if width else ''))
+    rep.check(not narrow, R, _w(m.decls['cell_item'].line, 'cell_item'), 'cell_item:full-width',
+              'category, span, head and rule ids of an item are full-width unsigned integers',
+              'an item stores %s: larger values wrap around, so a node keeps the category of grammar result i but is handed the label, symbol and head '
+              'direction of result i modulo the field width' % ', '.join(narrow))
     # the result record carries the fields the glue fills
     need = ['cat_id', 'rule_id', 'head_is_left', 'op_string', 'op_symbol']
     rep.check(all(x in m.result_fields for x in need), R, _w(m.decls['combinator_result'].line, 'combinator_result'),
